@@ -37,6 +37,12 @@ def lines(tier):
     out += ['vh-argv $A', 'vh-argv "${A}x"', "vh-argv '$A'", 'vh-argv {a,b}c', 'vh-argv {1..3}', 'vh-argv ~', 'vh-argv *', 'vh-argv a\\ b',
             'vh-argv a\;b', 'vh-argv "a b" c', 'vh-argv $(vh-emit 0)', 'vh-argv `vh-emit 0`', 'A=1 vh-argv x', 'B=2 ; vh-argv $B', '1 + 2 * 3',
             'vh-argv \\\\', "vh-argv 'a'\\''b'", 'vh-argv a#b #c', 'vh-argv x & ']
+    # comment-like text: `#` after a blank or tab inside quotes / escaped is data on every path; a real comment ends the line on every path
+    for q in ("'", '"'):
+        for inner in ('# b', 'a # b', 'a #b', '#', ' #', 'a\t#b', 'a # b # c'):
+            out.append('vh-argv %s%s%s c' % (q, inner, q))
+    out += ['vh-argv a\\ #b c', 'vh-argv a\\ \\#b c', 'vh-argv "a # b" && vh-argv2 done', "vh-argv 'x #y' z > f1", 'vh-argv "p #q" | vh-io r', 'vh-argv a # b', 'vh-argv a #',
+            '# only a comment', 'vh-argv a ; # c', 'vh-argv a ;# c', 'vh-argv "a" #"b', "V='a # b' ; vh-argv \"$V\"", 'vh-argv $(vh-emit 0) # c', '  vh-argv lead', 'vh-argv trail   ', '\tvh-argv tab']
     if tier == 'thorough':
         for t in itertools.product(c01.SIGMA, repeat=2):
             t = ''.join(t)
@@ -69,6 +75,8 @@ def snapshot(d, r):
 def run_line(line):
     res = {}
     for mode in MODES:
+        if mode == 'prompt' and '\t' in line:
+            continue        # a TAB typed at the prompt is the completion key, not text
         d = common.fresh_case_dir()
         try:
             w = os.path.join(d, 'w')     # the working directory holds only the data files
@@ -152,6 +160,8 @@ def run(rep, tier):
         ref = r['c']
         bad = False
         for mode in MODES[1:]:
+            if mode not in r:
+                continue
             o = r[mode]
             if o == 'no-prompt':
                 rep.machinery.append('pty: no prompt')
